@@ -384,6 +384,41 @@ type vector struct {
 	Src   string `json:"src"`
 	Pos   string `json:"pos"`
 	RecID string `json:"rec"`
+	// xmsg | xtx: a bag written by the specification (Boc!Write) holding a message / a transaction with exotic subtrees
+	Name string `json:"name"`
+	Kind string `json:"kind"`
+}
+
+// specTx records the transaction in a bag the specification wrote: decoded through the one cell variable without a hasher
+// and from a second parse with a caching decoder.
+func specTx(name string, bag []byte) (ev.M, error) {
+	parse := func() (*boc.Cell, error) {
+		rs, err := boc.DeserializeBoc(bag)
+		if err != nil {
+			return nil, fmt.Errorf("parse: %w", err)
+		}
+		return rs[0], nil
+	}
+	c1, err := parse()
+	if err != nil {
+		return nil, err
+	}
+	c2, err := parse()
+	if err != nil {
+		return nil, err
+	}
+	src := table(c1)
+	var a, b tlb.Transaction
+	oneCell = *c1
+	if err := safely(func() error { return tlb.Unmarshal(&oneCell, &a) }); err != nil {
+		return nil, &decodeErr{"unmarshal-transaction", src, hex.EncodeToString(bag), err}
+	}
+	if err := safely(func() error { return tlb.NewDecoder().Unmarshal(c2, &b) }); err != nil {
+		return nil, &decodeErr{"unmarshal-transaction-with-hasher", src, hex.EncodeToString(bag), err}
+	}
+	e := txEvent("spec", "exotic:"+name, c1, &a, &b, true)
+	e["srcboc"] = hex.EncodeToString(bag)
+	return e, nil
 }
 
 // fromTable turns a cell table of the generator into cells (bit by bit, reference by reference) and decodes the message.
@@ -474,6 +509,29 @@ func Replay(in string, w *ev.Writer, seed int64) error {
 				if v.Vec%3 == 0 {
 					es = append(es, normEvent(b.cl, a.d, b.d))
 				}
+				return nil
+			case "xmsg":
+				bag, er := hex.DecodeString(v.Boc)
+				if er != nil {
+					return er
+				}
+				cl := v.Kind + ":exotic:" + v.Name
+				d, er := decodeBag(bag, nil, dec, true, nil)
+				if er != nil {
+					return withClass(er, cl)
+				}
+				es = append(es, msgEvent(cl, d, nil), buildEvent(cl, d))
+				return nil
+			case "xtx":
+				bag, er := hex.DecodeString(v.Boc)
+				if er != nil {
+					return er
+				}
+				e, er := specTx(v.Name, bag)
+				if er != nil {
+					return withClass(er, v.Kind+":exotic:"+v.Name)
+				}
+				es = append(es, e)
 				return nil
 			case "boc":
 				bag, er := hex.DecodeString(v.Boc)
